@@ -1,5 +1,4 @@
 """Default resources for worlds."""
-import copy
 import json
 import functools
 import importlib
@@ -146,7 +145,7 @@ class WorldFromFileTransformer:
         """Apply all transformers on the given world with given data."""
         for transformer in self.dict_transformers:
             passthrough_dict = data_dict
-            initial_dict = copy.deepcopy(passthrough_dict)
+            initial_dict = _copy_structure(passthrough_dict)
 
             try:
                 # Only the passthrough dict is supposed to be modifiable
@@ -197,6 +196,20 @@ class WorldFromFileHandle(WorldHandle):
                                       object_dict_transformer,
                                       resource_dict_transformer])
         ))
+
+
+def _copy_structure(data):
+    """Copy nested dictionaries and lists, sharing all other values.
+
+    Arguments already resolved by a previous transformer can be
+    arbitrary objects (modules, resources, ...), which are not
+    copyable in general.
+    """
+    if isinstance(data, dict):
+        return {k: _copy_structure(v) for k, v in data.items()}
+    if isinstance(data, list):
+        return [_copy_structure(v) for v in data]
+    return data
 
 
 @functools.lru_cache()
